@@ -130,7 +130,11 @@ def static_cases(ctx):
         hold = hold_t / tpb
         vals = list(range(100, 100 + r.randint(2, 6)))
         tl = iso.Timeline(120, output_device=OutputDevice(), clock_source=DummyClock(ticks_per_beat=tpb))
-        static = iso.PStaticPattern(iso.PSequence(vals, 1000), hold)
+        # mostly endless for the length of the run; sometimes the shared inner pattern ends: then every reader ends with it,
+        # on the read that would need the next element, and nobody is served a value after that
+        reps = r.choice([1000, 1000, 1, 2])
+        static = iso.PStaticPattern(iso.PSequence(vals, reps), hold)
+        total = len(vals) * reps
         nreaders = r.randint(1, 4)
         reads = {k: [] for k in range(nreaders)}
         times = []
@@ -172,14 +176,18 @@ def static_cases(ctx):
         idx, start = -1, None
         for (sq, j, k, v, t) in allreads:
             dyadic = tpb & (tpb - 1) == 0
-            if start is not None and j - start == hold_t and not dyadic and idx < len(vals) and v == vals[idx]:
+            if start is not None and j - start == hold_t and not dyadic and idx < total and v == vals[idx % len(vals)]:
                 # exactly on the boundary with tick times that are not exact in 5 decimals (k/24, k/96): the code's
                 # rounded float comparison may hold the value one read longer — "at least its duration" still holds
                 pass
             elif start is None or j - start >= hold_t:
                 idx += 1
                 start = j
-            exp = vals[idx] if idx < len(vals) else None
+            if idx >= total:
+                bad = ("C07:static-read-after-end", "reader %d at tick %d was served %r although the shared pattern (%d elements) had ended: "
+                       "this read needs element %d (hold %d ticks, tpb %d)" % (k, j, v, total, idx, hold_t, tpb))
+                break
+            exp = vals[idx % len(vals)]
             if exp is not None and v != exp:
                 bad = ("C07:static-hold", "reader %d at tick %d read %r, expected %r (hold %d ticks, tpb %d)" % (k, j, v, exp, hold_t, tpb))
                 break
@@ -196,9 +204,9 @@ def static_cases(ctx):
                 lines.append("read %d/%d" % (f.numerator, f.denominator))
             out = ctx.driver("static", lines)[1:]
             got = [v - 100 for (sq, j, k, v, t) in allreads]
-            mdl = [int(x) for x in out]
+            mdl = [int(x) % len(vals) for x in out]
             validated = True
-            if got != mdl and all(g < len(vals) for g in mdl):
+            if got != mdl:
                 ctx.disagreement("static pattern: implementation returned elements %s, the model %s (tpb %d, hold %d ticks)" % (got[:12], mdl[:12], tpb, hold_t),
                                  {"suite": "static", "tpb": tpb, "hold_ticks": hold_t, "lines": lines})
         ctx.case(("static", tpb, hold_t, tuple(vals), nreaders, n), nontrivial=nreaders >= 2, validated=validated,
@@ -249,7 +257,83 @@ def static_cases(ctx):
             del Globals.dict[k]
 
 
+# ---- equal literals are not shared state ------------------------------------------------------------------------------
+# "Several tracks built from separate pattern objects ... couple only through deliberately shared state": tracks whose
+# event dictionaries carry EQUAL literals — the same notation string, equal lists — have separate patterns.  Each must
+# play its own sequence from its start, whatever the others (on this timeline, or on an earlier one in the same process)
+# have consumed.
+
+def shared_literal_cases(ctx):
+    import isobar as iso
+    from isobar.io.output import OutputDevice
+    r = ctx.rng
+
+    class ByChannel(OutputDevice):
+        def __init__(self):
+            super().__init__()
+            self.notes = {}
+
+        def note_on(self, note=60, velocity=64, channel=0):
+            self.notes.setdefault(channel, []).append(note)
+
+        def note_off(self, note=60, channel=0):
+            pass
+
+    for i in range(ctx.scale(60, 3000)):
+        vals = [r.randint(40, 90) for _ in range(r.randint(2, 6))]
+        form = r.choice(["notation-string", "notation-string", "nested-notation", "list", "psequence-of-same-list"])
+        if form == "nested-notation":
+            text = "%d [ %s ] %d" % (vals[0], " ".join(map(str, vals[1:])), vals[-1])
+            # one element of the nested group per cycle of its parent (C20): expand by simulation of the reference
+            def expand(n):
+                out, inner, j = [], vals[1:], 0
+                while len(out) < n:
+                    out += [vals[0], inner[j % len(inner)], vals[-1]]
+                    j += 1
+                return out[:n]
+        else:
+            text = " ".join(map(str, vals))
+            def expand(n):
+                return [vals[j % len(vals)] for j in range(n)]
+        ntracks = r.randint(2, 4)
+        tpb = r.choice([2, 4])
+        dev = ByChannel()
+        tl = iso.Timeline(tempo=120, output_device=dev, clock_source=iso.DummyClock(ticks_per_beat=tpb))
+        starts = []
+        for c in range(ntracks):
+            if form in ("notation-string", "nested-notation"):
+                note = str(text)                                   # equal strings (possibly the very same object)
+            elif form == "list":
+                note = iso.PSequence(list(vals))
+            else:
+                note = iso.PSequence(vals)                         # separate patterns over one caller-owned list
+            delay = r.choice([0, 0, 1, 2, 3])
+            starts.append(delay)
+            tl.schedule({"note": note, "duration": 1, "channel": c}, delay=delay)
+        nbeats = r.randint(4, 10)
+        for _ in range(nbeats * tpb):
+            tl.tick()
+        bad = None
+        for c in range(ntracks):
+            got = dev.notes.get(c, [])
+            n_exp = max(0, nbeats - starts[c])
+            exp = expand(n_exp)
+            if got != exp:
+                bad = (c, got, exp)
+                break
+        ctx.case(("literals", form, tuple(vals), ntracks, tuple(starts), nbeats), nontrivial=True, validated=False,
+                 sample={"part": "equal literals", "form": form, "text": text, "tracks": ntracks})
+        ctx.count("literals:" + form)
+        if bad:
+            ctx.violation("C07:equal-literals-share-state",
+                          "%d tracks given the equal literal %r (%s): the track on channel %d (started at beat %d) plays %s, alone it plays %s"
+                          % (ntracks, text, form, bad[0], starts[bad[0]], bad[1], bad[2]),
+                          {"suite": "c07-literals", "form": form, "values": vals, "tracks": ntracks, "starts": starts, "beats": nbeats,
+                           "first_failing_clause": "tracks built from separate pattern objects do not interfere"})
+
+
 def run(ctx):
+    shared_literal_cases(ctx)
     sched_suite.run_suite(ctx, PROF, ctx.scale(1000, 80000), "c07", [order_oracle], coincide, signature_of)
     # (no order oracle here: the notes of a failing track are released when it is removed, after its events of that tick;
     #  the model has that release in the same place, `flushOf` in `phaseTracks`)
